@@ -31,7 +31,7 @@ Allocate(sz) ==
      ELSE /\ live' = live \cup {[id |-> nextid, g |-> gen, from |-> tops[cur], len |-> sz]}
           /\ tops' = [tops EXCEPT ![cur] = @ + sz] /\ nextid' = nextid + 1
   /\ UNCHANGED <<cur, gen, crash, capOk>>
-  /\ hist' = Append(hist, [op |-> "an", a |-> sz])
+  /\ hist' = Append(hist, [op |-> "an", a |-> sz, res |-> IF sz > BlockEnd(cur) - tops[cur] THEN -1 ELSE tops[cur]])
 
 (* next_iteration: cur_ = (cur_+1) % N; stacks_[cur_].unwind(block_start(cur_)) *)
 NextIteration ==
@@ -46,7 +46,7 @@ NextIteration ==
              /\ capOk' = (capOk /\ BlockEnd(c) - BlockStart(c) = BlockEnd(c) - CtorTop(c))
              /\ UNCHANGED crash
   /\ UNCHANGED nextid
-  /\ hist' = Append(hist, [op |-> "ni", a |-> 0])
+  /\ hist' = Append(hist, [op |-> "ni", a |-> 0, res |-> -1])
 
 Next == (\E s \in Sizes : Allocate(s)) \/ NextIteration
 Spec == Init /\ [][Next]_vars
